@@ -464,6 +464,12 @@ static int parse_align(AsmContext *asm_context, int num)
     return -1;
   }
 
+  if (num < 1)
+  {
+    print_error(asm_context, "align constant must be at least 1");
+    return -1;
+  }
+
   mask = num - 1;
 
   while ((asm_context->address & mask) != 0)
